@@ -252,8 +252,8 @@ var pools = map[string]fieldPool{
 	"weights":             {good: []any{"", "1", "1,1", "1.0,1.0", "1,2,3", "0.5,1.5", "0,1"}, edge: []any{"0", "0,0", "-1,1", "-1", "abc", "1,,2", " 1", "NaN"}, bad: []any{[]any{1, 1}}},
 	"stages":              {good: []any{"0s:0,300ms:30", "0s:1,10s:1", "1s:10", "100ms:5,200ms:0", "0s:1, 10s:1", "0s:0,1s:100,1s:100,1s:0"}, edge: []any{"1s:-5", "0s:-1,1s:0", "1s", "abc", "", "1s:1:1", "-1s:5", "1s:1.5", "1s:1,"}, bad: []any{[]any{"1s:1"}}},
 	"concurrency":         {good: []any{1, 2, 5, 10, 50, 100}, edge: []any{0, -1, -100}, bad: []any{"abc", 1.5, []any{1}, "", "9223372036854775808"}},
-	"jitter":              {good: []any{0, 0, 0, 10, 20, 50, 100, 0.5}, edge: []any{-10, 150, 200}, bad: []any{"abc", []any{0}, ""}},
-	"volume":              {good: []any{0, 1, 100, 1000, 86400, 1e6, 2.5}, edge: []any{-1, -100}, bad: []any{"abc", []any{1}, ""}},
+	"jitter":              {good: []any{0, 0, 0, 10, 20, 50, 100, 0.5}, edge: []any{-10, 150, 200, math.NaN(), math.Inf(1)}, bad: []any{"abc", []any{0}, ""}},
+	"volume":              {good: []any{0, 1, 100, 1000, 86400, 1e6, 2.5}, edge: []any{-1, -100, math.Inf(1), math.NaN()}, bad: []any{"abc", []any{1}, ""}},
 	"iteration-frequency": {good: []any{"10ms", "100ms", "200ms", "1s", "10s", "1m", "1h"}, edge: []any{"0s", "-1s", "1ns"}, bad: []any{"abc", 5, ""}},
 	"repeat":              {good: []any{"200ms", "1s", "10s", "1m", "10m", "1h", "24h"}, edge: []any{"0s", "-1s", "10ms", "100ms"}, bad: []any{"abc", 5, ""}},
 	"peak":                {good: []any{"0s", "100ms", "500ms", "5s", "30s", "5m", "30m", "14h"}, edge: []any{"-1s", "48h"}, bad: []any{"abc", 5, ""}},
